@@ -92,7 +92,7 @@ TerminalOK(rec) ==
   /\ rec.it <= rec.max
   /\ (rec.result = "returned" =>
         /\ (rec.flag = "CONVERGED" => rec.err_le_tol)
-        /\ (rec.flag = "REACHED_MAX_ITERS" => rec.it = rec.max /\ ~rec.err_le_tol)
+        /\ (rec.flag = "REACHED_MAX_ITERS" => ~rec.err_le_tol /\ (rec.it = rec.max \/ rec.err_nan))
         /\ (rec.solver = "higher" => rec.true_le_guard /\ rec.finite)
         /\ (rec.solver = "newton" => rec.flag # "EARLY_STOP"))
   /\ (rec.solver = "higher" => rec.tf32_after = rec.tf32_before)
